@@ -136,24 +136,40 @@ def compare(src, prog, globals0, index_names, pattern, known):
                 raise Violation('final global %s = %r, the source-level reading gives %r' % (k, _short(iu[k]), _short(ru[k])), detail, 'globals-value')
     _runs[0] += 1
     if _runs[0] % 4 == 0:
-        # a host that supplies no globals: every such run starts from empty globals, so two runs in one process are the same run (here the
-        # program usually stops at its first host call - what happens up to there must not depend on what an earlier run left behind)
+        # a host that supplies no globals: such a run starts from empty globals - exactly like a run that is handed an empty globals object -
+        # whatever earlier runs without globals in this process (here: one that sets every name the generator uses) left behind.
+        # (probe / cc are defined as script functions so that the program runs to its end)
+        if 'noglobals' not in _cache:
+            _cache['noglobals'] = impl.bs.parse_script('\n'.join("%s = 'LEFT-BEHIND'" % n for n in LEFTOVER_NAMES) +
+                                                       "\nfunction fnLeft(aa):\n    return 'LEFT-BEHIND'\nendfunction\n")
+        model2 = impl.parse_valid(NOGLOBALS_PRELUDE + src, detail)
         seen = []
-        for _ in range(2):
+        for how in ('empty-globals-object', 'no-globals-member', 'no-globals-member'):
             log2 = []
+            opts2 = {'logFn': lambda m, log2=log2: log2.append(m), 'maxStatements': 3000}
+            if how == 'empty-globals-object':
+                opts2['globals'] = {}
+            else:
+                impl.bs.execute_script(_cache['noglobals'], {'logFn': lambda m: None})
             try:
-                r2 = ('ok', impl.bs.execute_script(model, {'logFn': lambda m, log2=log2: log2.append(m), 'maxStatements': MAX_STATEMENTS}))
+                r2 = ('ok', impl.bs.execute_script(model2, opts2))
             except impl.bs.RuntimeError as e:
                 r2 = ('runtime-error', str(e))
             except Exception as e:  # pylint: disable=broad-except
                 r2 = ('host-exception', '%s: %s' % (type(e).__name__, e))
             seen.append((r2[0], _short(r2[1]), log2))
-        if seen[0] != seen[1]:
-            raise Violation('two runs without caller-supplied globals differ: %r then %r' % (seen[0][:2], seen[1][:2]), detail, 'no-globals-runs-differ')
+        if seen[1] != seen[0] or seen[2] != seen[0]:
+            bad = seen[1] if seen[1] != seen[0] else seen[2]
+            raise Violation('a run without caller-supplied globals gives %r (%d log lines), the same run from an empty globals object gives %r (%d log lines)' % (
+                bad[:2], len(bad[2]), seen[0][:2], len(seen[0][2])), detail, 'no-globals-run')
     return expected, ref.events, wc
 
 
 _runs = [0]
+_cache = {}
+LEFTOVER_NAMES = ['x', 'y', 'z', 'w', 'g0', 'g1', 'g2', 'g3', 'garr', 'rr', 'v', 'u'] + ['c%d' % i for i in range(1, 40)] + ['ix%d' % i for i in range(1, 40)] + \
+    list(gp.KEYWORD_LIKE_VARIABLES)
+NOGLOBALS_PRELUDE = "function probe(tag, value):\n    systemLog('probe ' + tag)\n    return value\nendfunction\nfunction cc(tag):\n    return true\nendfunction\n"
 
 
 def _short(v):
